@@ -1222,7 +1222,7 @@ func c07Scenarios(th bool) []vx.Scenario {
 
 // ---------------- C20: lifecycle ----------------
 
-func c20Health(hist []bool, threshold int) vx.Scenario {
+func c20Health(hist []bool, threshold int, failMode int) vx.Scenario {
 	var hn strings.Builder
 	for _, b := range hist {
 		if b {
@@ -1231,10 +1231,11 @@ func c20Health(hist []bool, threshold int) vx.Scenario {
 			hn.WriteByte('F')
 		}
 	}
-	return vx.Scenario{Name: fmt.Sprintf("c20/health/%s/t%d", hn.String(), threshold), PB: 0, Single: true, MaxSteps: 20000, MaxTime: time.Duration(len(hist)+3) * time.Second,
+	return vx.Scenario{Name: fmt.Sprintf("c20/health/%s/t%d/fail%d", hn.String(), threshold, failMode), PB: 0, Single: true, MaxSteps: 20000, MaxTime: time.Duration(len(hist)+3) * time.Second,
 		Setup: func(s *vs.Sched) func(*vs.Result) vx.Exec {
 			w := newWorld(s)
 			w.health = append(append([]bool{}, hist...), true)
+			w.healthFail = failMode
 			w.lists = []listReply{{ids: []string{"a"}}}
 			w.startAgent("--health-check-interval-seconds=1", fmt.Sprintf("--health-check-unhealthy-threshold=%d", threshold))
 			return func(r *vs.Result) vx.Exec {
@@ -1597,7 +1598,14 @@ func c20Scenarios(th bool) []vx.Scenario {
 				if !th && l > 4 && t == 0 {
 					continue
 				}
-				out = append(out, c20Health(hist, t))
+				// a failing check is a 500, a refused connection, or a status that is not 200
+				// although it looks harmless (202 "starting", 204, 404): only 200 passes
+				for _, fm := range []int{0, -1, 202, 204, 404} {
+					if l == 0 && fm != 0 {
+						continue
+					}
+					out = append(out, c20Health(hist, t, fm))
+				}
 			}
 		}
 	}
